@@ -23,7 +23,7 @@ META = {
     ],
     "bounds": {
         "quick": "sample vectors of length 1..5; sampling layout on family F (+8 seeded shapes), sample shapes (), (2,), (2,2); toy calculator with ntoys = 2 for {q, qtilde, q0}; median expected value for n <= 3",
-        "thorough": "sample vectors up to 7, 60 seeded shapes, ntoys = 3",
+        "thorough": "sample vectors up to 7, 200 seeded shapes, ntoys = 3",
     },
     "stubs": ["backend poisson_dist/normal_dist .sample", "pyhf.infer.test_statistics.fit/fixed_poi_fit", "pyhf.infer.calculators.fixed_poi_fit"],
     "outside_claim": ["everything distributional: integer-valuedness, mean/variance of draws, agreement with exact tail probabilities within binomial error (RNG + statistics, not encodable)", "expected_value percentiles other than the median (symbolic percentile rank)"],
@@ -31,7 +31,7 @@ META = {
 
 
 def _family(tier, seed):
-    return shapes.family_core() + shapes.family_plus(seed, 8 if tier == "quick" else 60)
+    return shapes.family_core() + shapes.family_plus(seed, 8 if tier == "quick" else 200)
 
 
 def items(tier, seed):
